@@ -117,3 +117,59 @@ EQUIVALENT = [
     ("C05-commit-order-reversed", "utils/db.py: commit loop iterates reversed(cache.items()) - the outer root "
      "is adopted only after every write, so a failing write at any position leaves the same observable state"),
 ]
+
+# ---- C04 ------------------------------------------------------------------------------
+m("C04-dodeletes", ["C04"], "hexary.py",
+  "scratch_db.batch_commit(do_deletes=self.is_pruning)", "scratch_db.batch_commit(do_deletes=True)")
+m("C04-snapshot-prunes", ["C04"], "hexary.py",
+  "        snapshot = type(self)(self.db, at_root_hash, prune=False)",
+  "        snapshot = type(self)(self.db, at_root_hash, prune=True)")
+m("C04-root-before-writes", ["C04"], "hexary.py",
+  "        self._set_db_value(node_hash, encoded_node)\n        return node_hash",
+  "        self.root_hash = node_hash\n        self._set_db_value(node_hash, encoded_node)\n        return node_hash")
+m("C04-batch-root-early", ["C04", "C05"], "hexary.py",
+  "            yield memory_trie\n\n        if self.is_pruning:\n            # The batch was committed",
+  "            yield memory_trie\n            self.root_hash = memory_trie.root_hash\n\n        if self.is_pruning:\n            # The batch was committed")
+
+# ---- C07 ------------------------------------------------------------------------------
+m("C07-prune-finally", ["C07"], "hexary.py",
+  "            yield\n            if self.is_pruning:\n                self._complete_pruning()\n        finally:",
+  "            yield\n        finally:\n            if self.is_pruning:\n                self._complete_pruning()")
+m("C07-usedkey", ["C07"], "hexary.py",
+  "                used_key = trie_key[: len(trie_key) - len(remaining_key)]\n\n                raise MissingTraversalNode",
+  "                used_key = trie_key[: len(trie_key) - len(remaining_key) - 1]\n\n                raise MissingTraversalNode")
+m("C07-report-parent", ["C07"], "hexary.py",
+  "                raise MissingTraversalNode(exc.args[0], used_key)",
+  "                raise MissingTraversalNode(exc.args[0] if len(used_key) < 2 else keccak(encode_raw(node)) if len(encode_raw(node)) >= 32 else exc.args[0], used_key)")
+m("C07-swallow-normalize", ["C07", "C02"], "hexary.py",
+  "        sub_node = self.get_node(sub_node_hash)\n        sub_node_type = get_node_type(sub_node)\n",
+  "        try:\n            sub_node = self.get_node(sub_node_hash)\n        except KeyError:\n            return [encode_nibbles([sub_node_idx]), sub_node_hash]\n        sub_node_type = get_node_type(sub_node)\n")
+m("C07-wrong-root-in-report", ["C07"], "hexary.py",
+  "            raise MissingTrieNode(\n                traverse_exc.missing_node_hash,\n                root_hash,\n                key,",
+  "            raise MissingTrieNode(\n                traverse_exc.missing_node_hash,\n                traverse_exc.missing_node_hash,\n                key,")
+m("C07-write-before-read", ["C07"], "hexary.py",
+  "        node_to_delete = self.get_node(node[trie_key[0]])\n\n        sub_node = self._delete(node_to_delete, trie_key[1:])",
+  "        self._persist_node([compute_leaf_key(trie_key), b'tmp' * 12])\n        node_to_delete = self.get_node(node[trie_key[0]])\n\n        sub_node = self._delete(node_to_delete, trie_key[1:])")
+
+# ---- C08 ------------------------------------------------------------------------------
+m("C08-subseg", ["C08"], "utils/nodes.py",
+  "Nibbles((nibble,)) for nibble in range(16) if bool(node_body[nibble])",
+  "Nibbles((nibble,)) for nibble in range(1, 16) if bool(node_body[nibble])")
+m("C08-simsuffix", ["C08"], "exceptions.py",
+  "trimmed_suffix = Nibbles(actual_node.suffix[len(key_tail) :])",
+  "trimmed_suffix = Nibbles(actual_node.suffix[len(key_tail) - 1 :])")
+m("C08-simext", ["C08", "C09"], "exceptions.py",
+  "trimmed_extension = Nibbles(extension[len(key_tail) :])",
+  "trimmed_extension = Nibbles(extension)")
+m("C08-divergent-leaf-partial", ["C08"], "hexary.py",
+  "                if key_starts_with(leaf_key, remaining_key):\n                    return node, remaining_key",
+  "                if key_starts_with(leaf_key, remaining_key[:1]):\n                    return node, remaining_key")
+m("C08-traverse_from-rereads", ["C08"], "hexary.py",
+  "        node, remaining_key = self._traverse_from(parent_node.raw, trie_key)\n",
+  "        self.get_node(self.root_hash)\n        node, remaining_key = self._traverse_from(parent_node.raw, trie_key)\n")
+m("C08-ext-value", ["C08"], "utils/nodes.py",
+  "            sub_segments=(Nibbles(key_extension),),\n            value=b\"\",",
+  "            sub_segments=(Nibbles(key_extension),),\n            value=bytes(node_body[1]) if len(key_extension) == 1 else b\"\",")
+m("C08-path-to-node", ["C08"], "hexary.py",
+  "        node, remaining_key = self._traverse(self.root_hash, trie_key)\n\n        annotated_node = annotate_node(node)\n\n        if remaining_key:\n            path_to_node = trie_key[: len(trie_key) - len(remaining_key)]",
+  "        node, remaining_key = self._traverse(self.root_hash, trie_key)\n\n        annotated_node = annotate_node(node)\n\n        if remaining_key:\n            path_to_node = trie_key[: max(len(trie_key) - len(remaining_key), 1)]")
